@@ -514,6 +514,10 @@ def sym_getattr(ex, obj, name):
     key = (type(obj), name)
     if key in SYM_METHODS:
         return BoundModel(SYM_METHODS[key], obj, name)
+    if isinstance(obj, SDatetime):
+        names = ("year", "month", "day", "hour", "minute", "second", "microsecond")
+        if name in names:
+            return obj.fields[names.index(name)]
     if isinstance(obj, SStr):
         if name in ("rstrip", "strip", "lstrip", "replace", "lower", "upper", "hex"):
             return BoundModel(lambda ex, s, *a, **k: ex.fresh_str(name), obj, name)
